@@ -131,7 +131,7 @@ func (x *rulePkg) encoderArm(code uint64) encArm {
 	}
 	recv := ssa.Value(x.addFilter.Params[0])
 	for _, p := range ps {
-		ret := p.Return()
+		ret := p.Ret()
 		if ret == nil {
 			continue
 		}
@@ -572,7 +572,8 @@ func (x *rulePkg) parserAccepts(parser, kind string) (bool, string) {
 			}
 		case "exit-name":
 			// "-NAME" with NAME from AuditErrnoToName: needs the HasPrefix("-") + AuditErrnoToNum path
-			ok := hasCall(fn, "strings.HasPrefix", func(c ssa.CallInstruction) bool { s, _ := constString(c.Common().Args[1]); return s == "-" })
+			dash := func(c ssa.CallInstruction) bool { s, _ := constString(c.Common().Args[1]); return s == "-" }
+			ok := hasCall(fn, "strings.HasPrefix", dash) || hasCall(fn, "strings.CutPrefix", dash) || hasCall(fn, "strings.TrimPrefix", dash)
 			lk := false
 			instrsOf(fn, func(in ssa.Instruction) {
 				if l, isL := in.(*ssa.Lookup); isL && Term(l.X) == "auparse.AuditErrnoToNum" {
@@ -1028,7 +1029,7 @@ func propC06(r *Run, w *World) {
 		undo := autoAlias(fn)
 		ps, _ := Paths(fn, PathOpts{})
 		for i, p := range ps {
-			ret := p.Return()
+			ret := p.Ret()
 			if ret == nil {
 				continue
 			}
@@ -1205,7 +1206,7 @@ func propC06(r *Run, w *World) {
 		ps, _ := Paths(fn, PathOpts{MaxVisit: 2, Cap: 20000})
 		okOrder := false
 		for _, p := range ps {
-			ret := p.Return()
+			ret := p.Ret()
 			if ret == nil {
 				continue
 			}
